@@ -39,6 +39,7 @@ class Result:
         self.lemmas = 0; self.claims = 0; self.validated = 0; self.axioms = set(); self.bounds = []
         self.notes = []; self.approx_paths = 0; self.solver = {'queries': 0, 'time': 0.0, 'procs': 0}
         self.extra = {}
+        shutil.rmtree(os.path.join(VERIF, 'replay', pid), ignore_errors=True)
 
 def load_known(pid):
     fn = os.path.join(VERIF, 'known_findings.json')
@@ -170,7 +171,10 @@ def validate(res, e, cp):
 
 def handle_candidates(res, s, e, p, r, cand, dbin, known, approx, opts):
     tol = opts.get('approx_tol', 1e-9) if approx else 1e-18
-    found, npc = prove.numeric_search(e, p, cand, nsamples=opts.get('nsamples', 60), seed=opts.get('seed', 0), tol=tol)
+    extra = []
+    for nm, m in (r.get('cex_models') or {}).items():
+        extra += prove.complete_model(e, p, m)
+    found, npc = prove.numeric_search(e, p, cand, nsamples=opts.get('nsamples', 60), seed=opts.get('seed', 0), tol=tol, extra=extra)
     for name in cand:
         key = '%s:p%d:%s' % (e.name, p.idx, name)
         if name not in found:
@@ -182,10 +186,13 @@ def handle_candidates(res, s, e, p, r, cand, dbin, known, approx, opts):
                 res.undecided.append('%s: canonical forms differ but no counterexample found (%d points)' % (key, npc))
             continue
         asg, lv, rv = found[name]
+        sc = prove.solver_confirm(e, p, name, asg)
+        if sc == 'unsat':
+            res.undecided.append('%s: numeric candidate refuted by the solver at the pinned point' % key); continue
         # replay on the real double build
         rep = replay(res, s, e, name, asg, dbin)
         rec = {'property': res.pid, 'key': key, 'entry': e.name, 'path': p.idx, 'claim': name,
-               'inputs': {e.nodes[k].name: float(v) for k, v in asg.items()}, 'model_lhs': lv, 'model_rhs': rv, 'replay': rep,
+               'inputs': {e.nodes[k].name: float(v) for k, v in asg.items()}, 'solver_at_pinned_point': sc, 'model_lhs': lv, 'model_rhs': rv, 'replay': rep,
                'path_decisions': [(e.nodes[a].op, c, e.nodes[b].op, t) for (a, c, b, t) in p.decisions]}
         if rep is None or not rep.get('reproduced'):
             res.undecided.append('%s: counterexample candidate did not reproduce on the double build' % key)
